@@ -498,6 +498,16 @@ def F8(m, R):
                     'Self' in (roots(lrefs) | roots(rrefs)) and any(isinstance(sd, ast.Subscript) and isinstance(sd.slice, ast.Slice) for sd in (x.left, x.comparators[0])):
                 R.ok(f, x, 'declared seam merge: stop markers of the receiver are compared by value with start markers of the other operand', construct=cons)
                 continue
+            if f.name == '__iadd__' and isinstance(x, ast.Compare) and isinstance(x.ops[0], ast.Eq):
+                # a further conjunct of the declared seam-merge test (the receiver's active settings compared with the start markers of the other operand)
+                host = next((p for p in _parents(x) if isinstance(p, ast.If)), None)
+                if host is not None and any(x is y for y in ast.walk(host.test)) and any(
+                        isinstance(c, ast.Compare) and c is not x and isinstance(c.ops[0], ast.Eq) and
+                        any(isinstance(sd, ast.Subscript) and isinstance(sd.slice, ast.Slice) and norm(sd.value).endswith('.' + ro.STOP) for sd in (c.left, c.comparators[0]))
+                        for c in ast.walk(host.test)):
+                    R.ok(f, x, 'declared seam merge: a further conjunct of the merge test compares markers of the receiver by value with start markers of the other operand',
+                         construct=cons)
+                    continue
             if f.name == 'to_str' and isinstance(x, ast.Compare) and isinstance(x.ops[0], (ast.Eq, ast.NotEq)) and \
                     any(isinstance(p, (ast.ListComp, ast.If)) for p in _parents(x)) and 'dict' in norm(x):
                 R.ok(f, x, 'declared: the optimiser compares the rendered value of two effective states', construct=cons)
